@@ -506,6 +506,10 @@ func (in *Interp) globalObj(g *ssa.Global) *Object {
 	et := g.Type().(*types.Pointer).Elem()
 	o := in.newObject(et, in.zero(et), "global "+g.String())
 	in.globals[g] = o
+	if g.Pkg != nil && !in.cfg.initPkg(g.Pkg.Pkg.Path()) && types.Identical(et, types.Universe.Lookup("error").Type()) {
+		// sentinel errors of packages whose init is not executed (context.Canceled, io.EOF, ...): distinct non-nil values
+		o.v = in.newError(Opaque{"sentinel " + g.String()})
+	}
 	return o
 }
 
